@@ -40,7 +40,7 @@ RULE = ("generated MessageAttributes specs for every content kind the converter 
         "specs are also materialised directly as protobuf (explicitly set defaults allowed) as 'payload received from a peer'. "
         "In half of the entity-level cases the content is replaced in place by a second generated spec after the entity (or a deep "
         "copy of it) has been serialised once, and the next serialisation must carry the second content. "
-        "Forward level: forward() of the composed and of the received entity must serialise to the same content under a new id and recipient, and changing the forwarded copy in place must leave the serialisation of the message it was made from unchanged. "
+        "Before the round trip the process may have tried 1-5 times to serialise a message that cannot be serialised (state must not leak), and in half of the cases the message is printed (str) between composing / parsing and serialising. Forward level: forward() of the composed and of the received entity must serialise to the same content under a new id and recipient, and changing the forwarded copy in place must leave the serialisation of the message it was made from unchanged. "
         "Non-trivial = at least 2 optional fields set, or nested context info, or a zero/empty value set explicitly. "
         "Distinct = distinct canonical JSON.")
 ASSUMPTIONS = [
